@@ -98,6 +98,7 @@ def check(ctx: Ctx, col: Collector, tier: str) -> None:
         st.eq[repr(Sym("expr.name"))] = Const(nm)
         # a name mypy could bind has a non-empty fullname (an unbound one cannot be named as a type: C01.IMPORT-SOURCE)
         st.facts[f"truthy:{Sym('expr.fullname')!r}"] = True
+        st.neq[repr(Sym("expr.fullname"))] = {Const("")}
         outs = ctx.interp(efi).run_function(efi, {ep: Sym("expr", "NameExpr")}, st)
         key = f"{HELPERS}::mypy_expression_to_sds_type::NameExpr:{nm}"
         def named_ok(o):
@@ -302,13 +303,14 @@ def check(ctx: Ctx, col: Collector, tier: str) -> None:
     ploops = [n for n in ast.walk(pfi.node) if isinstance(n, ast.For) and id(n) in pit.loops]
     for n in ploops:
         itv, elem, entry = pit.loops[id(n)][0]
-        if sym_is(itv, "rdocs"):
+        if sym_is(itv, "rdocs") or (isinstance(itv, App) and itv.func in ("list", "tuple", "reversed", "sorted", "enumerate") and itv.args and sym_is(itv.args[0], "rdocs")):
             continue  # the inner search for a matching docstring, not a loop over result types
         body = run_body(pit, n, entry, elem)
         bad = []
         for o in body:
-            aps = [e for e in new_effects(o, entry) if e.kind == "mutate" and e.target.endswith(".append")]
-            if o.kind != "fall" or len(aps) != 1 or not (isinstance(aps[0].args[0], Obj) and aps[0].args[0].cls == "Result"):
+            # appends of results (other lists, e.g. a record of matched docstring entries, do not count)
+            aps = [e for e in new_effects(o, entry) if e.kind == "mutate" and e.target.endswith(".append") and e.args and isinstance(e.args[0], Obj) and e.args[0].cls == "Result"]
+            if o.kind != "fall" or len(aps) != 1:
                 bad.append((o.kind, len(aps)))
         key = f"{VISITOR}::MyPyAstVisitor._parse_results::one-result-per-element::{ast.unparse(n.iter)[:30]}"
         (col.ok if not bad else col.bad)("C07.TUPLE-SPLIT", key, repo.loc(VISITOR, n), f"{len(body)} paths; {bad[:2]}",
@@ -356,6 +358,35 @@ def check(ctx: Ctx, col: Collector, tier: str) -> None:
                     col.bad("C07.RESULT-NAMES", key, repo.loc(VISITOR, n), "; ".join(probs), f"{fi.qualname}: {probs[0]}")
                 else:
                     col.ok("C07.RESULT-NAMES", key, repo.loc(VISITOR, n), "name = docstring name or next(generator); id ends with it")
+    # when docstring entries are matched to results by their type, an entry names at most one result (two results of one type would otherwise
+    # share a name and an id)
+    searches = []
+    for outer in ast.walk(pfi.node):
+        if isinstance(outer, ast.For):
+            for inner in ast.walk(outer):
+                if isinstance(inner, ast.For) and inner is not outer and "result_docstrings" in ast.unparse(inner.iter) and any(isinstance(b, ast.Break) for b in ast.walk(inner)):
+                    searches.append((outer, inner))
+    for outer, inner in searches:
+        matched_var = inner.target.id if isinstance(inner.target, ast.Name) else None
+        consumed = []
+        for x in ast.walk(outer):
+            if isinstance(x, ast.Call) and isinstance(x.func, ast.Attribute) and x.func.attr in ("remove", "pop") and "result_docstrings" in ast.unparse(x.func.value):
+                consumed.append(f"line {x.lineno}: `{ast.unparse(x)[:50]}`")
+            if isinstance(x, ast.Call) and isinstance(x.func, ast.Attribute) and x.func.attr in ("add", "append") and isinstance(x.func.value, ast.Name):
+                coll = x.func.value.id
+                tests = [c for c in ast.walk(inner) if isinstance(c, (ast.Compare, ast.Call)) and coll in {n.id for n in ast.walk(c) if isinstance(n, ast.Name)}
+                         and (isinstance(c, ast.Call) and getattr(c.func, "id", "") in ("any", "all") or isinstance(c, ast.Compare) and any(isinstance(o, (ast.In, ast.NotIn, ast.Is, ast.IsNot)) for o in c.ops))]
+                if tests and coll != "all_results":
+                    consumed.append(f"matched entries are recorded in `{coll}` and excluded by `{ast.unparse(tests[0])[:50]}`")
+        key = f"{VISITOR}::MyPyAstVisitor._parse_results::docstring-entry-names-one-result"
+        if consumed:
+            col.ok("C07.RESULT-NAMES", key, repo.loc(VISITOR, inner), consumed[0])
+        else:
+            col.bad("C07.RESULT-NAMES", key, repo.loc(VISITOR, inner), f"search loop over result_docstrings (line {inner.lineno}) inside the loop over the results (line {outer.lineno}); a matched entry stays available",
+                    "when the docstring documents fewer results than the annotated tuple has, entries are matched by type and a matched entry can be matched again: `def f() -> tuple[int, int, str]` with "
+                    "numpydoc Returns `count : int` and `name : str` gives the results (count, count, name) - two results share one name and one id (the stub declares `count` twice, the API JSON lists the id twice)")
+    if len(searches) > 1:
+        raise AnalysisError("more than one docstring search loop in _parse_results; re-triage")
     # the generator counts from 1
     gfi = repo.function(VISITOR, "result_name_generator")
     col.touched(gfi)
